@@ -10,7 +10,8 @@ namespace HipVerif.Vecs
 open HipVerif.Spec.Vec (Bnd Side)
 namespace S
 export HipVerif.Spec.Vec (range push pop popIf insert remove swapRemove truncate clear resize
-  resizeWith extend extendFromWithin append splitOff consume drain intoIter clone fromItems keep)
+  resizeWith extend extendFromWithin append constAppend spareWrite splitOff consume drain intoIter
+  clone fromItems keep)
 end S
 
 /-! ## The specification as a step function over the same operation alphabet -/
@@ -73,6 +74,8 @@ def specStep (xs : List α) : Op α → Outcome α × List α
     | none => (.err (.range (rangeErrorOf sb eb xs.length)) .unit, xs)
   | .extend _ items => (.ok .unit, S.extend xs items)
   | .append other => (.ok (.items (S.append xs other).2), (S.append xs other).1)
+  | .constAppend _ other => (.ok (.items (S.constAppend xs other).2), (S.constAppend xs other).1)
+  | .spareWrite vals => (.ok .unit, S.spareWrite xs vals)
   | .splitOff n =>
     match S.splitOff xs n with
     | some (a, b) => (.ok (.items b), a)
@@ -106,7 +109,8 @@ def needs (xs : List α) : Op α → Nat
     | some (a, b) => xs.length + (b - a)
     | none => 0
   | .extend _ items => xs.length + items.length
-  | .append other => xs.length + other.length
+  | .append other | .constAppend _ other => xs.length + other.length
+  | .spareWrite vals => xs.length + vals.length
   | .from src hint items => if src = .iter then max hint items.length else items.length
   | _ => 0
 
@@ -115,7 +119,8 @@ def appended : Op α → List α
   | .push v | .tryPush v | .insert _ v | .tryInsert _ v => [v]
   | .extendFromSlice l | .extendFromSliceCopy l | .extendFromArray l => l
   | .extend _ items => items
-  | .append other => other
+  | .append other | .constAppend _ other => other
+  | .spareWrite vals => vals
   | .from _ _ items => items
   | _ => []
 
@@ -392,6 +397,12 @@ theorem IV.step_spec (s : IV α) (op : Op α) (hw : s.xs.length ≤ s.cap) (hs :
   | append other =>
     simp only [needs] at hn
     simp [IV.step, specStep, IV.append, S.append, hn]
+  | constAppend cap2 other =>
+    simp only [needs] at hn
+    simp [IV.step, specStep, IV.constAppend, S.constAppend, S.append, hn]
+  | spareWrite vals =>
+    simp only [needs] at hn
+    simp [IV.step, specStep, IV.spareWrite, IV.extendFromSlice, S.spareWrite, hn]
   | splitOff n =>
     simp only [IV.step, specStep, IV.splitOff, S.splitOff]
     by_cases h : n ≤ s.xs.length <;> simp [h]
@@ -513,6 +524,14 @@ theorem IV.step_exceed (s : IV α) (op : Op α) (hw : s.xs.length ≤ s.cap) (hs
     simp only [needs] at hn
     have h2 : ¬ s.xs.length + other.length ≤ s.cap := by omega
     simp [Op.isTry, IV.step, IV.append, h2, IV.afterPrefix_same _ _ hw]
+  case constAppend cap2 other =>
+    simp only [needs] at hn
+    have h2 : ¬ s.xs.length + other.length ≤ s.cap := by omega
+    simp [Op.isTry, IV.step, IV.constAppend, h2, IV.afterPrefix_same _ _ hw]
+  case spareWrite vals =>
+    simp only [needs] at hn
+    have h2 : ¬ s.xs.length + vals.length ≤ s.cap := by omega
+    simp [Op.isTry, IV.step, IV.spareWrite, IV.extendFromSlice, h2, IV.afterPrefix_same _ _ hw]
   case «from» src hint items =>
     simp only [needs] at hn
     refine ⟨by simp [Op.isTry], fun _ => ?_⟩
@@ -604,8 +623,8 @@ theorem spec_length_le (xs : List α) (op : Op α) :
   case «from» src hint items =>
     simp only [specStep, S.fromItems, needs]
     split <;> omega
-  all_goals simp [specStep, needs, S.push, S.truncate, S.clear, S.extend, S.append, S.clone, S.keep,
-    S.intoIter] <;> omega
+  all_goals simp [specStep, needs, S.push, S.truncate, S.clear, S.extend, S.append, S.constAppend, S.spareWrite, S.clone,
+    S.keep, S.intoIter] <;> omega
 
 theorem IV.step_unsupported (s : IV α) (op : Op α) (hs : op.forIV = false) :
     s.step op = (unsupported, s) := by
@@ -1176,6 +1195,8 @@ theorem TV.step_sim (s : TV α) (hw : s.Wf) (op : Op α) (hs : op.forTV = true) 
       · exact .inr ⟨e1, e2⟩
   case append other =>
     exact TV.sim_afterReserve s hw (.append other) other.length (.ok (.items [])) (fun xs => xs ++ other) rfl rfl (by simp)
+  case spareWrite vals =>
+    exact TV.sim_afterReserve s hw (.spareWrite vals) vals.length (.ok .unit) (fun xs => xs ++ vals) rfl rfl (by simp)
   case splitOff n =>
     simp only [TV.step, TV.splitOff]
     by_cases h : n ≤ s.xs.length
